@@ -253,8 +253,8 @@ func (s *Server) serve(c net.Conn, id int) {
 	}
 }
 
-func bulk(v string) string { return fmt.Sprintf("$%d\r\n%s\r\n", len(v), v) }
-func integer(n int64) string { return fmt.Sprintf(":%d\r\n", n) }
+func bulk(v string) string     { return fmt.Sprintf("$%d\r\n%s\r\n", len(v), v) }
+func integer(n int64) string   { return fmt.Sprintf(":%d\r\n", n) }
 func errReply(m string) string { return "-" + m + "\r\n" }
 
 const (
